@@ -1,6 +1,7 @@
 package whitespace
 
 import (
+	"github.com/ajitpratap0/GoSQLX/pkg/sql/tokenizer"
 	"strings"
 	"unicode"
 
@@ -65,15 +66,26 @@ func NewTrailingWhitespaceRule() *TrailingWhitespaceRule {
 func (r *TrailingWhitespaceRule) Check(ctx *linter.Context) ([]linter.Violation, error) {
 	violations := []linter.Violation{}
 
+	// Blanks at the end of a line that ends inside a multi-line string
+	// literal are part of the string value, not trailing whitespace.
+	classes := tokenizer.ClassifyBytes(ctx.SQL)
+	offset := 0
+
 	for lineNum, line := range ctx.Lines {
+		lineOffset := offset
+		offset += len(line) + 1
+
 		// Check if line has trailing whitespace
 		if len(line) == 0 {
+			continue
+		}
+		if endsInsideLiteral(classes, lineOffset, len(line)) {
 			continue
 		}
 
 		lastChar := rune(line[len(line)-1])
 		if unicode.IsSpace(lastChar) && lastChar != '\n' && lastChar != '\r' {
-			// Find the column where trailing whitespace starts
+			// Find where trailing whitespace starts
 			trimmed := strings.TrimRight(line, " \t")
 			column := len(trimmed) + 1
 
@@ -105,8 +117,14 @@ func (r *TrailingWhitespaceRule) Check(ctx *linter.Context) ([]linter.Violation,
 func (r *TrailingWhitespaceRule) Fix(content string, violations []linter.Violation) (string, error) {
 	lines := strings.Split(content, "\n")
 
+	classes := tokenizer.ClassifyBytes(content)
+	offset := 0
 	for i, line := range lines {
-		lines[i] = strings.TrimRight(line, " \t")
+		// blanks before a line break inside a string literal belong to the string
+		if !endsInsideLiteral(classes, offset, len(line)) {
+			lines[i] = strings.TrimRight(line, " \t")
+		}
+		offset += len(line) + 1
 	}
 
 	return strings.Join(lines, "\n"), nil
